@@ -9,7 +9,7 @@ import enc as E
 ID = "C11"
 MODULE = "JmesVerif.Props.C11"
 THEOREMS = ["C11_offset_irrelevant", "C11_deterministic", "C11_pipe_parse", "C11_pipe", "C11_projection", "C11_condition", "C11_flatten",
-            "C11_multilist", "C11_multihash", "C11_not", "C11_and", "C11_or", "C11_comparison", "C11_objectValues"]
+            "C11_multilist", "C11_multihash", "C11_not", "C11_and", "C11_or", "C11_comparison", "C11_objectValues", "C11_translated_interpreter"]
 TRUSTED_BASE = [
     "Lean 4.33 kernel; axioms propext, Classical.choice, Quot.sound only",
     "hand-written interpreter/parser models tied to the code by the `eval` stream; the compositional laws themselves are additionally "
@@ -165,7 +165,11 @@ def gen(ctx):
                     out.append(("pipe", "%s%s%s" % (L, "" if R.startswith("[") else ".", R), d, [L, R]))
     # every projection kind x every kind of continuation of its right-hand side (field then filter / index / slice / wildcard / flatten-free chains)
     pd_doc = G.json_to_enc({"a": [{"t": [1, 2, 3], "u": {"t": [4]}}, {"t": [0, 5]}, {"t": []}, {"u": 1}, None, {"t": [[2], [3, 4]]}]})
+    pd_doc2 = G.json_to_enc({"a": {"p": [0, 2, 3], "q": [{"t": 1, "u": 2}, {"u": 3}, 5], "r": [], "s": "str", "v": [[1, 2], [0], []]},
+                             "b": [[1, 2, 3], [{"t": 1}, {"t": 0, "u": 1}], None, [], "x", [0, 5], [[4], [5, 6]], {"t": [7]}]})
     for form, proj, extra in [("wild", "[*]", None), ("slice", "[0:2]", "[0:2]"), ("slice", "[::-1]", "[::-1]"), ("slice", "[1:]", "[1:]"), ("slice", "[:-1:2]", "[:-1:2]"),
+                              ("slice", "[:4]", "[:4]"), ("slice", "[0:5]", "[0:5]"), ("slice", "[:3]", "[:3]"), ("slice", "[:5:1]", "[:5:1]"), ("slice", "[-4:]", "[-4:]"),
+                              ("slice", "[:]", "[:]"), ("slice", "[::]", "[::]"), ("slice", "[::1]", "[::1]"), ("slice", "[0:]", "[0:]"),
                               ("flatten", "[]", None), ("filter", "[?t]", "t"), ("filter", "[?@]", "@")]:
         for R in ["t[?@ > `1`]", "t[?@]", "t[0]", "t[*]", "t[1:]", "t[-1]", "u.t[?@ > `1`]", "t[?@ > `1`][0]", "t[*][0]", "t[?@ > `1`] || t", "t[0] == `1`", "t && u",
                   "{k: t}.k[?@ > `2`]", "t[?@ > `1`].length(@)", "t[::2][?@ > `0`]"]:
@@ -174,6 +178,10 @@ def gen(ctx):
             if ("||" in R or "&&" in R or "==" in R):
                 continue            # an operator ends every projection's right-hand side: not of the form proj.R
             out.append((form, "(a)%s.%s" % (proj, R), pd_doc, ["a", R] + ([extra] if extra else [])))
+        # bracket-headed continuations stand directly after the projection (no dot): a further filter, index, slice or wildcard applies to each element
+        for R in ["[?@ > `1`]", "[?t]", "[0]", "[-1]", "[1:]", "[*]", "[?@]", "[?u][?t]", "[?t][0]", "[*][0]", "[?t].u"]:
+            out.append((form, "(a.*)%s%s" % (proj, R), pd_doc2, ["a.*", R] + ([extra] if extra else [])))
+            out.append((form, "(b)%s%s" % (proj, R), pd_doc2, ["b", R] + ([extra] if extra else [])))
     # a parenthesised projection is CLOSED: what follows applies to its result as a whole (composition), not per element
     for _ in range(150 if ctx.tier == "quick" else 5000):
         A = rng.choice(["a[*]", "a[]", "a[?b]", "b.*", "a[1:]", "a[*].a", "a[?@].b", "*", "a[*].a[]"])
